@@ -7,6 +7,6 @@ os.makedirs(dst,exist_ok=True)
 for f in ('patch.diff','demo.diff'): shutil.copy(f'{src}/{f}',f'{dst}/{f}')
 m=json.load(open(f'{src}/meta.json'))
 out={"breaks_property":m.get('property',sid),"summary":m.get('summary'),"needs_to_manifest":m.get('needs'),"demonstration":{"file":"demo.diff","test":m.get('demo_test')},
- "confirmed":ran,"caught_by":caught.split(),"origin":"independent sub-agent given only the property text and a scratch worktree"}
+ "confirmed":ran,"caught_by":[w for w in caught.split() if len(w)==3 and w[0]=="C"],"caught_by_note":" ".join(w for w in caught.split() if not (len(w)==3 and w[0]=="C")).strip("() "),"origin":"independent sub-agent given only the property text and a scratch worktree"}
 json.dump(out,open(f'{dst}/meta.json','w'),indent=1)
 print("kept",dest)
